@@ -20,7 +20,8 @@ META = {
     'id': 'C04',
     'title': 'Loading applies the documented coercions, and only those',
     'level': 'proof',
-    'technique': 'Coq proof (case analysis on values, induction on container contexts, arithmetic of half-even rounding) about a '
+    'technique': 'Coq proof (case analysis on values, induction on container contexts and on digit lists, arithmetic of half-even rounding and of '
+                 'binary64 correct rounding) about a '
                  'hand-written Gallina model + differential correspondence with the implementation and a docs-derived reference oracle',
     'design_ref': 'DESIGN.md section 4 C04',
     'theorems': ['C04_truthy_is_documented', 'C04_bool', 'C04_bool_v1', 'C04_round_half_even', 'C04_round_unique',
@@ -28,19 +29,28 @@ META = {
                  'C04_datetime_z_suffix', 'C04_datetime_numeric_utc', 'C04_datetime_numeric_v1',
                  'C04_datetime_env_numeric_string', 'C04_timedelta_dispatch',
                  'C04_enum', 'C04_decimal', 'C04_everywhere', 'C04_everywhere_ref', 'C04_dict_key_ref',
-                 'C04_env_split', 'C04_env_split_dict', 'C04_env_tuple_refuted'],
+                 'C04_env_split', 'C04_env_split_dict', 'C04_env_tuple_refuted',
+                 'C04_int_string_exact', 'C04_int_string_everywhere', 'C04_int_string_dict_key', 'C04_int_string_no_float_route',
+                 'C04_int_point_zero_exact', 'C04_int_point_zero_is_a_float', 'C04_float_nearest', 'C04_float_exact'],
     'tables': ['Truthy'],
     'level_text': ('Theorems proved in Coq for ALL JSON-ish inputs (unbounded ints, exact dyadic floats, arbitrary ASCII strings, '
                    'nested lists/dicts), all three engines and all container contexts, about an executable model of type_conv.py '
-                   'and the scalar/container load hooks; standard-library functions the library only calls are universally '
+                   'and the scalar/container load hooks; int(str), float(str), float(int), round(), is_integer() are concrete in the model '
+                   '(floats are exact dyadics, float() is the correctly rounded binary64 conversion), so which strings take the detour through '
+                   'float and what precision that costs is proved, for integer strings of unbounded size (induction over digit lists); the other '
+                   'standard-library functions the library only calls are universally '
                    'quantified oracle parameters.  The model is re-validated against the implementation on every run, and the '
                    'documented behaviour is also tested directly on the implementation against a reference written from the docs.'),
     'level_note': ('Trusted: Coq kernel + vm_compute; the hand-written model (ASCII strings; -0.0 identified with 0.0); the '
-                   'correspondence harness; the oracle tables (real float()/fromisoformat/fromtimestamp/pytimeparse/Decimal/'
-                   'b64decode/json.loads answers).  Python >= 3.11 assumed for v1 ISO parsing (hypothesis iso_z_native).'),
+                   'correspondence harness; the oracle tables (real str(float)/fromisoformat/fromtimestamp/pytimeparse/Decimal/'
+                   'b64decode/json.loads answers); float() of the model is compared with Python float() on every run.  Python >= 3.11 assumed for v1 ISO parsing (hypothesis iso_z_native).'),
     'rule': ('per scalar type a fixed list of boundary spellings (sign, exponent, whitespace, underscores, case, Z vs offset, '
              'bool-vs-int, huge ints, negative timestamps, 1.0/1.5/1e3, empty string, None) plus random ints/dyadic floats/'
-             'numeric strings/case-mangled truthy words; per type a few core values (None, empty string, one coercible and one rejected spelling) at '
+             'numeric strings/case-mangled truthy words; numerals systematically: sign {none,-,+} x magnitude class {small, 2**53+-k, 2**63+-1, '
+             '2**64+-1, 10**30, random 54..130 bits} x spelling {plain, blanks left/right/both, underscore groups, leading zeros} as integer strings, '
+             'the same magnitudes with suffixes .0 . .000 .5 .25 .50 .75 .0e0 e0 .5e1 E2 as float strings, as JSON ints and JSON floats, and floats with '
+             'a fraction next to 2**51 / 2**52, at int, float, Decimal, str, bool, timedelta, datetime and int-subclass positions (2**53+1 and 10**30+1 '
+             'at EVERY position kind incl. dict int keys and EnvWizard shorthand / JSON strings); per type a few core values (None, empty string, one coercible and one rejected spelling) at '
              'EVERY position kind (incl. dict keys of every hashable scalar type, defaultdict/OrderedDict, set/frozenset/deque/Sequence, TypedDict '
              'total/partial/Required/NotRequired, NamedTuple, nested dataclass, Annotated, Union members; those outside the Coq type grammar by the '
              'direct predicate only), the rest at top level and in sampled container contexts (list, dict value, '
@@ -48,6 +58,8 @@ META = {
              'os.environ incl. comma/equals shorthand and JSON forms).  Non-trivial = value is not already of the annotated type; '
              'distinct = distinct (type, value, engine).'),
     'trusted_base': ['model coq/model/CoerceModel.v: code-shaped transcription of type_conv.py and the load hooks (validated by correspondence)',
+                     'model coq/model/CoerceFloat.v: float(str) / float(int) / round() / is_integer() on exact dyadics (validated against Python on every run; '
+                     'correct rounding proved: C04_float_nearest)',
                      'oracle tables harness/impl/c04_oracle.py: answers of the real stdlib / pytimeparse functions for the generated cases'],
     'assumptions': ['strings are ASCII in the model; the harness feeds ASCII only',
                     'Python >= 3.11 (v1 passes ISO strings to fromisoformat without the Z rewrite)',
@@ -845,11 +857,11 @@ def all_contexts(t, v):
     ]
 
 
-def contexts(r, t, v, tier, every=False):
+def contexts(r, t, v, tier, every=False, n=None):
     """placements of scalar (t, v): top level always; every position kind for core values, else sampled."""
     allc = all_contexts(t, v)
     if not every:
-        allc = r.sample(allc, 2 if tier == 'quick' else 4)
+        allc = r.sample(allc, (2 if tier == 'quick' else 4) if n is None else n)
     return [('top', t, v)] + allc
 
 
@@ -867,7 +879,7 @@ def key_contexts(K, key):
     ]
 
 
-def env_string_forms(r, t, v):
+def env_string_forms(r, t, v, only=None):
     """EnvWizard: the same scalar spelled inside shorthand / JSON container strings (only str scalars can be embedded)."""
     if not isinstance(v, str) or any(c in v for c in ',=[]{}"\\') or v != v.strip() or v == '' or not v.isprintable():
         return []
@@ -897,7 +909,128 @@ def env_string_forms(r, t, v):
         ('env.dc', ['dc', [['a', t], ['b', 'str']]], 'a = %s , b=x' % v),
         ('env.ddict', ['ddict', 'str', t], 'k=%s' % v),
     ]
+    if only is not None:
+        return [x for x in out if x[0] in only]
     return r.sample(out, 4)
+
+
+
+# ----------------------------------------------------------------------------------------------
+# numerals: systematic families (sign x magnitude class x spelling) instead of a few hand-picked spellings.
+# The detour int(float(s)) is exact below 2**53 and silently wrong above it, so every magnitude class
+# has members on both sides of a power of two that matters to binary64 / to fixed-width integers.
+SIGNS = ['', '-', '+']
+MAG_CLASSES = {
+    'small': [0, 7, 42, 1000],
+    'p53': [2 ** 53 - 1, 2 ** 53, 2 ** 53 + 1, 2 ** 53 + 2, 2 ** 53 + 3],
+    'p63': [2 ** 63 - 1, 2 ** 63, 2 ** 63 + 1],
+    'p64': [2 ** 64 - 1, 2 ** 64, 2 ** 64 + 1],
+    'e30': [10 ** 30, 10 ** 30 + 1, 123456789012345678901234567890],
+}
+MAG_REPS = [7, 2 ** 53 + 1, 2 ** 63 + 1, 2 ** 64 + 1, 10 ** 30 + 1]      # one per class, none representable above 2**53
+MAG_EVERYWHERE = [2 ** 53 + 1, 10 ** 30 + 1]                              # these go to EVERY int-typed position kind
+
+
+def us_groups(digits):
+    """'1234567' -> '1_234_567' (single underscores between digit groups)"""
+    head = len(digits) % 3 or 3
+    return '_'.join([digits[:head]] + [digits[i:i + 3] for i in range(head, len(digits), 3)])
+
+
+INT_SPELLINGS = [
+    ('plain', lambda sg, d: sg + d),
+    ('ws.l', lambda sg, d: ' ' + sg + d),
+    ('ws.r', lambda sg, d: sg + d + '\n'),
+    ('ws.both', lambda sg, d: '\t ' + sg + d + ' \r'),
+    ('us', lambda sg, d: sg + us_groups(d)),
+    ('zeros', lambda sg, d: sg + '00' + d),
+    ('us.ws', lambda sg, d: ' ' + sg + us_groups(d) + ' '),
+]
+POINT_SUFFIXES = ['.0', '.', '.000', '.5', '.25', '.50', '.75', '.0e0', 'e0', '.5e1', 'E2']
+
+
+def numeric_families(r, tier):
+    """[(tag, scalar type, value, placements)]: placements = 'all' (every position kind) or the number of
+    sampled position kinds besides the top level"""
+    out = []
+    mags = [m for ms in MAG_CLASSES.values() for m in ms]
+    extra = [r.getrandbits(k) | (1 << (k - 1)) | 1 for k in ([54, 60, 64, 65, 80, 100, 130] if tier == 'quick' else
+                                                             [54, 55, 56, 57, 60, 62, 63, 64, 65, 66, 70, 80, 90, 100, 110, 120, 130, 200, 400])]
+    thorough = tier != 'quick'
+    more = 2 if thorough else 1
+    # integer strings -> int / float / Decimal / str positions
+    for m in mags + extra:
+        for sg in SIGNS:
+            for name, f in INT_SPELLINGS:
+                rep = thorough or m in MAG_REPS
+                if name != 'plain' and not rep:
+                    continue
+                s = f(sg, str(m))
+                out.append(('intstr.' + name, 'int', s, 'all' if name == 'plain' and m in MAG_EVERYWHERE else more))
+                if name in ('plain', 'ws.both', 'us') and rep:
+                    out.append(('intstr.' + name, 'float', s, 0))
+                    out.append(('intstr.' + name, 'decimal', s, 0))
+                if name == 'plain' and rep:
+                    out.append(('intstr.' + name, 'sub:int', s, 0))
+                    out.append(('intstr.' + name, 'timedelta', s, 0))       # numeric form only without a sign
+                    out.append(('intstr.' + name, 'datetime', s, 0))        # EnvWizard: epoch strings
+    # strings with a decimal point / exponent ("float strings") -> int, float, Decimal
+    for m in (mags + extra if thorough else MAG_REPS + [2 ** 53, 2 ** 52 + 1, 2 ** 51 + 1]):
+        for sg in SIGNS:
+            for suf in POINT_SUFFIXES:
+                s = sg + str(m) + suf
+                every = suf == '.0' and m in MAG_EVERYWHERE and sg != '+'
+                out.append(('pointstr', 'int', s, 'all' if every else (more if suf in ('.0', '.5') else 0)))
+                if thorough or (sg != '+' and suf in ('.0', '.', '.5', '.25', 'e0', '.5e1')):
+                    out.append(('pointstr', 'float', s, 0))
+                if suf in ('.0', '.5', 'e0'):
+                    out.append(('pointstr', 'decimal', s, 0))
+                if sg == '' and suf in ('.0', '.5', '.25'):
+                    out.append(('pointstr', 'timedelta', s, 0))
+                    out.append(('pointstr', 'datetime', s, 0))
+    # JSON ints and floats of every magnitude class at int / float / Decimal / bool positions
+    for m in mags + extra:
+        for z in (m, -m):
+            out.append(('jsonint', 'int', z, 0))
+            out.append(('jsonint', 'float', z, 'all' if z in (2 ** 53 + 1, -(2 ** 53 + 1)) else 0))
+            out.append(('jsonint', 'decimal', z, 0))
+            out.append(('jsonint', 'str', z, 0))
+            if thorough or m in MAG_REPS:
+                out.append(('jsonint', 'bool', z, 0))
+                out.append(('jsonint', 'timedelta', z, 0))
+            try:
+                fz = float(z)
+            except OverflowError:
+                continue
+            out.append(('jsonfloat', 'int', fz, 'all' if m == 2 ** 53 + 2 else 0))
+            out.append(('jsonfloat', 'decimal', fz, 0))
+            out.append(('jsonfloat', 'float', fz, 0))
+    # floats with a fraction near the point where binary64 runs out of fraction bits
+    for base in [2 ** 51, 2 ** 52 - 1, 2 ** 50 + 1, 1, 2, 1000001]:
+        for frac in (0.5, 0.25, 0.75):
+            for sgn in (1, -1):
+                fv = sgn * (base + frac)
+                out.append(('jsonfloat.frac', 'int', fv, more))
+                out.append(('jsonfloat.frac', 'sub:int', fv, 0))
+    # bool is an int subclass: rejected at int, accepted nowhere as a number for dates
+    for b in (True, False):
+        for t in ('int', 'sub:int', 'float', 'decimal', 'timedelta', 'datetime', 'date'):
+            out.append(('bool', t, b, more))
+    return out
+
+
+def int_key_family():
+    """integer strings as dict KEYS of type int (keys are coercion positions)"""
+    out = []
+    for m in MAG_REPS:
+        for sg in SIGNS:
+            out.append(sg + str(m))
+        out.append('-' + us_groups(str(m)))
+        out.append(' +' + str(m) + ' ')
+    return out
+
+
+ENV_NUM_FORMS = ('env.list', 'env.dict', 'env.dictint', 'env.json.list', 'env.json.dict', 'env.tupv', 'env.set', 'env.nt', 'env.td', 'env.dc')
 
 
 def gen_cases(ctx):
@@ -924,6 +1057,17 @@ def gen_cases(ctx):
             if t in ENV_FILLER:
                 for tag, ty, val in env_string_forms(r, t, v):
                     add(tag, ty, val, ['env'])
+    # numerals: sign x magnitude class x spelling, at int / float / Decimal / timedelta / datetime positions
+    for tag, t, v, where in numeric_families(r, ctx.tier):
+        every = where == 'all'
+        for ctag, ty, val in contexts(r, t, v, ctx.tier, every=every, n=None if every else where):
+            add('num.%s.%s' % (tag, ctag), ty, val, ENGINES)
+        if every and isinstance(v, str):
+            for ctag, ty, val in env_string_forms(r, t, v, only=ENV_NUM_FORMS):
+                add('num.%s.%s' % (tag, ctag), ty, val, ['env'])
+    for key in int_key_family():
+        for ctag, ty, val in key_contexts('int', key):
+            add('num.intkey.' + ctag, ty, val, ENGINES)
     # dict keys: core spellings at every key position kind, the other boundary spellings at a sampled one
     for K in KEY_TYPES:
         keys = [v for v in BOUNDARY[K] + rnd.get(K, [])[:6 if ctx.tier == 'quick' else 40] if isinstance(v, str)]
@@ -1131,7 +1275,6 @@ def build_prelude(ctx, values, tz, typed=()):
         for e in ENUMS
     ] + [
         'Definition T_dom : list pstr := %s.' % coq_list([coq_str(x) for x in strings]),
-        'Definition T_float : list (pstr * res fl) := %s.' % table('float', strings, coq_str, coq_fl_enc, 'EV'),
         'Definition T_str : list (jv * res pstr) := %s.' % table('str', strables, coq_jv, coq_str),
         'Definition T_dt_iso : list (pstr * res pstr) := %s.' % table('dt_iso', strings, coq_str, coq_str, 'EV'),
         'Definition T_date_iso : list (pstr * res pstr) := %s.' % table('date_iso', strings, coq_str, coq_str, 'EV'),
@@ -1144,7 +1287,7 @@ def build_prelude(ctx, values, tz, typed=()):
         'Definition T_decimal : list (pstr * res pstr) := %s.' % table('decimal', strings, coq_str, coq_str, 'EX'),
         'Definition T_b64 : list (pstr * res pstr) := %s.' % table('b64', strings, coq_str, hexs, 'EV'),
         'Definition T_json : list (pstr * res jv) := %s.' % table('json', strings, coq_str, coq_jenc),
-        'Definition ORC : oracles := tbl_oracles T_dom T_float T_str T_dt_iso T_date_iso T_time_iso T_dt_ts_utc T_dt_ts_local '
+        'Definition ORC : oracles := tbl_oracles T_dom T_str T_dt_iso T_date_iso T_time_iso T_dt_ts_utc T_dt_ts_local '
         'T_date_ts T_timeparse T_timedelta T_decimal T_b64 T_json.',
         'Definition run (e : engine) (t : ty) (j : jv) : pstr := show_res (load ORC e t j).',
         'Definition run_list (j : jv) : pstr := show_res (rmap pv_of_jv (as_list ORC j)).',
@@ -1428,6 +1571,54 @@ def unit_checks(ctx, cases):
     want += [str(z) for z in ints]
     exprs += ['show_fl %s' % coq_fl(f) for f in floats]
     want += [enc_float(f) for f in floats]
+    # float(str) / float(int) of the model (CoerceFloat.v: correct rounding of binary64) against Python's own
+    fstrs = [c['val'] for c in cases if isinstance(c['val'], str) and c['tag'].startswith('num.') and c['tag'].endswith('.top')]
+    fstrs += [v for t in ('int', 'float', 'timedelta', 'decimal') for v in BOUNDARY[t] if isinstance(v, str)]
+    fstrs += ['inf', '-inf', '+inf', 'Infinity', '-iNfInItY', 'infinit', 'nan', '+NaN', '-nan', 'na', 'in_f', '1_e5', '1e5_', '1e_5', '1_000.5e1_0',
+              '-_1', '1_0_', '1._5', '1_.5', '1.5_', '1__0.5', '.', '-.', '.e5', '1e', '1e+', '1e-', 'e5', '1.e5', '+.5e-1', '- 1', '1 e5', '--1', '+-1',
+              '1e--1', '1.5E+0_1', '0e999999999999', '1e999999999999', '1e-999999999999', '-1e400', '1e400', '1e-400', '0.0e-400',
+              '4.9e-324', '5e-324', '2.4703282292062327e-324', '2.4703282292062328e-324', '2.4703282292062329e-324', '2.2250738585072014e-308',
+              '2.2250738585072011e-308', '1.7976931348623157e308', '1.7976931348623158e308', '1.7976931348623159e308', '179769313486231580793728971405303415079934132710037826936173778980444968292764750946649017977587207096330286416692887910946555547851940402630657488671505820681908902000708383676273854845817711531764475730270069855571366959622842914819860834936475292719074168444365510704342711559699508093042880177904174497791.9999999999999999999999',
+              '9007199254740993', '9007199254740992.5', '9007199254740993.000000000000000000001', '9007199254740992.999999999999999999999',
+              '0.1', '0.30000000000000004', '1.0000000000000002', '1.00000000000000011102230246251565404236316680908203125',
+              '1.00000000000000011102230246251565404236316680908203126', '1.00000000000000011102230246251565404236316680908203124',
+              '123456789012345678901234567890.0', '0.000000000000000000000000000001', '00001.5', '1.50000', '\x1c1', '1\x1f', '\x0b1.5\x0c', ' \t\n\r1\r\n']
+    for _ in range(150 if ctx.tier == 'quick' else 1500):
+        k = r.random()
+        if k < 0.35:      # random well-formed decimal with exponent
+            fstrs.append('%s%d.%se%d' % (r.choice(SIGNS), r.getrandbits(r.choice([3, 20, 53, 64, 90])),
+                                          ''.join(r.choice('0123456789') for _ in range(r.choice([0, 1, 5, 17, 30]))), r.randrange(-340, 320)))
+        elif k < 0.6:     # exactly half way between two doubles, and a hair beside it
+            m, e = r.randrange(2 ** 52, 2 ** 53), r.randrange(-60, 60)
+            half = Fraction(2 * m + 1) * Fraction(2) ** (e - 1)
+            if half.denominator != 1:
+                k2 = half.denominator.bit_length() - 1
+                digits = str(half.numerator * 5 ** k2)
+                txt = (digits[:-k2] or '0') + '.' + digits[-k2:].rjust(k2, '0')
+            else:
+                txt = str(half.numerator) + '.0'
+            fstrs.append(txt + r.choice(['', '', '0000000000000000000000001']))
+            fstrs.append(r.choice(SIGNS) + txt)
+        else:             # noise over the alphabet of numerals
+            fstrs.append(''.join(r.choice('0123456789_+-. eE') for _ in range(r.choice([1, 2, 3, 5, 8]))))
+    fstrs = list(dict.fromkeys(x for x in fstrs if x.isascii() and len(x) < 400))
+    fints = [m * sg for ms in MAG_CLASSES.values() for m in ms for sg in (1, -1)] + [
+        2 ** 1024 - 2 ** 970, 2 ** 1024 - 2 ** 970 - 1, 2 ** 1024, -(2 ** 1024), 2 ** 1023, 10 ** 308, 10 ** 309, 2 ** 54 + 2, 2 ** 54 + 3, 2 ** 54 + 6]
+    fints += [r.getrandbits(r.choice([10, 53, 54, 55, 64, 100, 400, 1023, 1024, 1025])) * r.choice([1, -1]) for _ in range(40 if ctx.tier == 'quick' else 400)]
+    fints = list(dict.fromkeys(fints))
+
+    def pyf(f, *a):
+        try:
+            return 'O' + enc_float(f(*a))
+        except OverflowError:
+            return 'EO'
+        except ValueError:
+            return 'EV'
+
+    exprs += ['show_resF (py_float_of_str %s)' % coq_str(x) for x in fstrs]
+    want += [pyf(float, x) for x in fstrs]
+    exprs += ['show_resF (fl_of_Z (%d)%%Z)' % z for z in fints]
+    want += [pyf(float, z) for z in fints]
     n_std = len(exprs)
     impl = ctx.impl('c04', {'cases': [], 'units': {'as_list': split_strs, 'as_dict': split_strs}})
     prelude, _, _, _ = build_prelude(ctx, split_strs, 'UTC')
@@ -1440,7 +1631,8 @@ def unit_checks(ctx, cases):
         ctx.broken_tie('model evaluation failed (units): %s' % str(e)[-600:])
         return
     labels = (['int(%r)' % s for s in strs] + ['round(%r)' % f for f in floats] + ['%r.is_integer()' % f for f in floats] +
-              ['str(%d)' % z for z in ints] + ['canon(%r)' % f for f in floats])
+              ['str(%d)' % z for z in ints] + ['canon(%r)' % f for f in floats] +
+              ['float(%r)' % x for x in fstrs] + ['float(%d)' % z for z in fints])
     for lab, g, w in zip(labels, got[:n_std], want):
         ctx.count(1, key='u:' + lab, nontrivial=True)
         ctx.traces_validated += 1
@@ -1460,7 +1652,8 @@ def unit_checks(ctx, cases):
         if fn == 'as_list' and st[:1] != '[' and 'ok' in o:
             if o['ok'] != enc([p.strip() for p in s.split(',')]):
                 ctx.violation('as_list(%r) is not [e.strip() for e in s.split(",")]: %s' % (s, o['ok']), {'kind': 'as_list', 'string': s})
-    ctx.hist('units', 'int_strings=%d floats=%d split_strings=%d' % (len(strs), len(floats), len(split_strs)))
+    ctx.hist('units', 'int_strings=%d floats=%d split_strings=%d float_strings=%d float_of_ints=%d' %
+             (len(strs), len(floats), len(split_strs), len(fstrs), len(fints)))
 
 
 # ----------------------------------------------------------------------------------------------
